@@ -255,8 +255,8 @@ for _n in ("rows", "pack", "sizing", "selectable"):
 DECORATION = Obj(_wd.WidgetDecoration, dict(_original_widget=WIDGET))
 
 
-def _sizing_contract(clsname, shape):
-    @contract(WD + clsname + ".sizing", property="C01", replayable=False)
+def _sizing_contract(clsname, shape, prefix=WD):
+    @contract(prefix + clsname + ".sizing", property="C01", replayable=False)
     class _s:
         """`sizing()` tells the truth: a decoration that draws nothing of its own supports exactly the modes of the
         widget it shows (its render / rows / pack hand the size on unchanged)."""
@@ -281,3 +281,78 @@ def _sizing_contract(clsname, shape):
 
 decoration_sizing = _sizing_contract("WidgetDecoration", DECORATION)
 disable_sizing = _sizing_contract("WidgetDisable", DISABLE)
+
+from urwid.widget import attr_wrap as _aw  # noqa: E402
+
+attrwrap_sizing = _sizing_contract("AttrWrap", Obj(_aw.AttrWrap, dict(_original_widget=WIDGET)), "urwid/widget/attr_wrap.py:")
+
+
+# ============================================================================================ PopUpLauncher
+from urwid.widget import popup as _popup  # noqa: E402
+
+PU = "urwid/widget/popup.py:"
+from contracts.C09_frame import widget_truthy  # noqa: E402
+
+# (the pop-up widget's truth value is read: an opaque widget is truthy unless its class defines __len__ and it is empty)
+LAUNCHER = Obj(_popup.PopUpLauncher, dict(_original_widget=WIDGET, _pop_up_widget=Opt(Opaque("Widget", truth=widget_truthy))))
+
+
+def _popup_params(st, hint):
+    from pyvc.seqs import DRef
+
+    return DRef({k: Int.fresh(st, f"{hint}.{k}") for k in ("left", "top", "overlay_width", "overlay_height")})
+
+
+@contract(PU + "PopUpLauncher.get_pop_up_parameters", property=(), assumed=True,
+          notes="abstract in PopUpLauncher (raises NotImplementedError): stands for the subclass override the class documents -- "
+                "returns a dict with exactly the keys left, top, overlay_width, overlay_height (any integers) and touches nothing")
+class popup_params:
+    self_shape = LAUNCHER
+    result = Custom(_popup_params, "pop-up parameters")
+    modifies = ()
+
+
+@contract("urwid/canvas.py:Canvas.set_pop_up", property=(), assumed=True,
+          notes="canvas protocol: records the pop-up request in coords['pop up'] -- size, cursor and content untouched; CanvasError only on a "
+                "finalized canvas, which a freshly made CompositeCanvas is not")
+class canvas_set_pop_up:
+    self_shape = CCANVAS
+    modifies = ()
+    log_event = "set_pop_up"
+
+
+@contract(PU + "PopUpLauncher.render", property="C01", replayable=False, inline=(MIX + "render",))
+class launcher_render:
+    """The canvas of the widget it decorates, whatever the sizing mode (it reports the delegate's): an open pop-up adds
+    a request for the PopUpTarget above and changes neither size nor cursor."""
+    self_shape = LAUNCHER
+    params = dict(size=ANYSIZE, focus=Bool)
+    result = CCANVAS
+    raises = ()
+
+    def requires(s, a):
+        return size_ok(a.size)
+
+    def ensures(old, s, a, r):
+        W = PROTOCOLS["Widget"]
+        w = old._original_widget
+        child = W.call_quiet(cur(), w, "render", dict(size=a.size, focus=a.focus))
+        yield "size-is-the-delegates", both(r.ncols == child.ncols, r.nrows == child.nrows)
+        if len(a.size) == 2:
+            yield "box-size-as-asked", both(r.ncols == a.size[0], r.nrows == a.size[1])
+        elif len(a.size) == 1:
+            yield "flow-cols-as-asked", r.ncols == a.size[0]
+            yield "flow-rows-equal-delegates-rows", r.nrows == W.call_quiet(cur(), w, "rows", dict(size=a.size, focus=a.focus))
+        else:
+            pk = W.call_quiet(cur(), w, "pack", dict(size=a.size, focus=a.focus))
+            yield "fixed-size-equals-delegates-pack", both(r.ncols == pk[0], r.nrows == pk[1])
+        yield "cursor-is-the-delegates", opt_eq_shift(r.cursor, child.cursor, 0, 0)
+        yield "cursor-inside", canvas_wf(r)
+        rc = calls("render")
+        yield "delegate-rendered-once-same-size-and-focus", both(len(rc) == 1, eq(rc[0][1], w) if rc else False, eq(rc[0][3]["size"], a.size) if rc else False, eq(rc[0][3]["focus"], a.focus) if rc else False)
+        asked = [ev for ev in r.trace if ev[0] == "set_pop_up"]
+        if is_none(old._pop_up_widget):
+            yield "closed-no-pop-up-request", len(asked) == 0
+        else:
+            yield "at-most-one-pop-up-request-for-the-pop-up-widget", both(len(asked) <= 1, eq(asked[0][1], val(old._pop_up_widget)) if asked else True)
+        yield "frame", both(eq(s._original_widget, old._original_widget), opt_eq(s._pop_up_widget, old._pop_up_widget))
